@@ -61,6 +61,8 @@ fn boundary_names() -> Vec<Labels> {
 }
 
 fn main() {
+    // a stack overflow / abort in the code under test must become a verdict, not a dead check
+    vcore::supervise("C04");
     let ctx = Ctx::from_args("C04", "exploration");
     let thorough = !ctx.quick();
 
